@@ -7,7 +7,6 @@ package main
 
 import (
 	"fmt"
-	"reflect"
 	"regexp"
 	"sort"
 	"strings"
@@ -257,5 +256,3 @@ func probeReal(cb *copyBook, in *input) {
 		cb.note("FileContractElement.Copy", m, probeCopy("FileContractElement.Copy", &in.Supp.ExpiringFileContracts[j], &c, m))
 	}
 }
-
-var _ = reflect.TypeOf
